@@ -40,6 +40,7 @@ inductive V (α : Type)
   | rat (q : Rat)                    -- fractions.Fraction / exact numbers of the unit arithmetic
   | str (s : String)                 -- unit strings ('' / 's' / 'ms' / 'us' / 'ns')
   | pair (a b : V α)                 -- a 2-tuple
+  | blist (l : List Bool)            -- a Python list of Booleans (verdicts of the interface-aware predicate)
   deriving Repr, Inhabited
 
 inductive UnOp | neg | abs | sqrt | exp | ln | not | truthy | frac | numer | denom | toInt | unitNs
@@ -69,6 +70,8 @@ inductive E
   | agg (isMax : Bool) (e : E)       -- min(e) / max(e) of one list
   | reversed (e : E)                 -- reversed(e)
   | tuple (a b : E)                  -- (a, b)
+  | ifExp (c a b : E)                -- a if c else b
+  | strLit (s : String)              -- a string constant (values of the `Semantics` enumeration)
   | unsupported (what : String)
   deriving Repr, Inhabited
 
@@ -86,6 +89,7 @@ inductive S
   | appendLoc (x : String) (e : E)                       -- x.append(e)   (x local: list or deque)
   | reverseLoc (x : String)                              -- x.reverse()
   | insertLoc (x : String) (pos e : E)                   -- x.insert(pos, e)
+  | forEnum (i x : String) (it : E) (body : S)           -- for i, x in enumerate(it)   (it: a list of floats or of Booleans)
   | unsupported (what : String)
   deriving Repr, Inhabited
 
@@ -202,6 +206,9 @@ def evalBin (op : BinOp) (a b : V α) : Except PyErr (V α) :=
   | .ge, (.num x, .num y) => .ok (.bool (!Val.lt x y))
   | .eq, (.num x, .num y) => .ok (.bool (numEq x y))
   | .ne, (.num x, .num y) => .ok (.bool (!numEq x y))
+  | .eq, (.str x, .str y) => .ok (.bool (decide (x = y)))
+  | .eq, (.bool x, .bool y) => .ok (.bool (x == y))
+  | .ne, (.bool x, .bool y) => .ok (.bool (x != y))
   | .eq, (.cmp x, .cmp y) => .ok (.bool (decide (x = y)))
   | .ne, (.cmp x, .cmp y) => .ok (.bool (!decide (x = y)))
   | .lt, (.int x, .int y) => .ok (.bool (decide (x < y)))
@@ -317,12 +324,20 @@ def evalE (env : Env α) : E → Except PyErr (V α)
       let x ← evalE env a
       let y ← evalE env b
       pure (.pair x y)
+  | .strLit t => .ok (.str t)
+  | .ifExp c a b => do
+      match (← evalE env c) with
+      | .bool true => evalE env a
+      | .bool false => evalE env b
+      | _ => .error .type
   | .unsupported _ => .error .other
 
 /-- `target.append(v)`. -/
 def appendV : V α → V α → Except PyErr (V α)
   | .deque c l, .num x => .ok (.deque c (dqAppend c l x))
   | .dlist [], .num x => .ok (.list [x])
+  | .dlist [], .bool b => .ok (.blist [b])
+  | .blist l, .bool b => .ok (.blist (l ++ [b]))
   | .dlist l, .deque c d => .ok (.dlist (l ++ [(c, d)]))
   | .list l, .num x => .ok (.list (l ++ [x]))
   | _, _ => .error .type
@@ -385,6 +400,16 @@ def exec : S → Env α → Except PyErr (Env α)
       match asList (← getKey x env.loc), (← evalE env pos), (← evalE env e) with
       | some l, .int 0, .num v => pure { env with loc := setKey x (.list (v :: l)) env.loc }
       | _, _, _ => throw .type
+  | .forEnum i x it body, env => do
+      match (← evalE env it) with
+      | .blist l =>
+          l.zipIdx.foldlM (fun env p =>
+            exec body { env with loc := setKey x (.bool p.1) (setKey i (.int (p.2 : Nat)) env.loc) }) env
+      | v =>
+          match asList v with
+          | some l => l.zipIdx.foldlM (fun env p =>
+              exec body { env with loc := setKey x (.num p.1) (setKey i (.int (p.2 : Nat)) env.loc) }) env
+          | none => throw .type
   | .unsupported _, _ => .error .other
 
 /-- Call of a method on an object with attribute store `self`. -/
